@@ -276,18 +276,53 @@ inductive FShape where
   | halfspace (n : V3 Float)
   | other (coords : List Float)
 
+def pfl' : Nat → P (List Float)
+  | 0 => pure []
+  | k+1 => do let x ← pf; let xs ← pfl' k; pure (x :: xs)
+def pnats : Nat → P (List Nat)
+  | 0 => pure []
+  | k+1 => do let x ← pnat; let xs ← pnats k; pure (x :: xs)
 def pv (dim : Nat) : P (V3 Float) := if dim = 3 then pv3 else (do let v ← pv2; pure ⟨v.x, v.y, 0.0⟩)
-def pshape (dim : Nat) : P FShape := do
-  let t ← tok
-  match t with
-  | "b" => do let r ← pf; pure (.ball r)
-  | "c" => do let he ← pv dim; pure (.cuboid he)
-  | "h" => do let n ← pv dim; pure (.halfspace n)
-  | "p" => do let a ← pv dim; let b ← pv dim; let r ← pf; pure (.other [a.x, a.y, a.z, b.x, b.y, b.z, r])
-  | "t" => do let a ← pv dim; let b ← pv dim; let c ← pv dim; pure (.other [a.x, a.y, a.z, b.x, b.y, b.z, c.x, c.y, c.z])
-  | "s" => do let a ← pv dim; let b ← pv dim; pure (.other [a.x, a.y, a.z, b.x, b.y, b.z])
-  | "x" => do let ps ← plist (pv dim); pure (.other (ps.flatMap fun p => [p.x, p.y, p.z]))
-  | _ => failure
+/-- simple shapes, plus (for the oracle-only runs) composites: only an overall size is kept for those -/
+def pshapeN (dim : Nat) : Nat → P FShape
+  | 0 => failure
+  | fuel + 1 => do
+    let t ← tok
+    match t with
+    | "b" => do let r ← pf; pure (.ball r)
+    | "c" => do let he ← pv dim; pure (.cuboid he)
+    | "h" => do let n ← pv dim; pure (.halfspace n)
+    | "p" => do let a ← pv dim; let b ← pv dim; let r ← pf; pure (.other [a.x, a.y, a.z, b.x, b.y, b.z, r])
+    | "t" => do let a ← pv dim; let b ← pv dim; let c ← pv dim; pure (.other [a.x, a.y, a.z, b.x, b.y, b.z, c.x, c.y, c.z])
+    | "s" => do let a ← pv dim; let b ← pv dim; pure (.other [a.x, a.y, a.z, b.x, b.y, b.z])
+    | "x" => do let ps ← plist (pv dim); pure (.other (ps.flatMap fun p => [p.x, p.y, p.z]))
+    | "hf" =>
+      if dim = 3 then do
+        let nr ← pnat; let nc ← pnat; let hs ← pfl' (nr * nc); let sc ← pv3
+        let ns ← pnat; let _ ← pnats (3 * ns)
+        pure (.other ([sc.x, sc.z] ++ hs.map (· * sc.y)))
+      else do
+        let n ← pnat; let hs ← pfl' n; let sc ← pv2
+        let nr ← pnat; let _ ← pnats nr
+        pure (.other (sc.x :: hs.map (· * sc.y)))
+    | "cp" => do
+      let k ← pnat
+      let rec go : Nat → P (List Float)
+        | 0 => pure []
+        | j + 1 => do
+          let t ← (if dim = 3 then (do let m ← piso3; pure m.t) else (do let m ← piso2; pure (⟨m.t.x, m.t.y, 0.0⟩ : V3 Float)))
+          let g ← pshapeN dim fuel
+          let sz : Float := match g with
+            | .ball r => r | .cuboid he => Float.sqrt (he.x * he.x + he.y * he.y + he.z * he.z) | .halfspace _ => 0.0
+            | .other cs => cs.foldl (fun a c => if a < c.abs then c.abs else a) 0.0
+          let rest ← go j
+          pure ([t.x.abs + sz, t.y.abs + sz, t.z.abs + sz] ++ rest)
+      let cs ← go k
+      pure (.other cs)
+    | "tm" => do let ps ← plist (pv dim); let nt ← pnat; let _ ← pnats (3 * nt); pure (.other (ps.flatMap fun p => [p.x, p.y, p.z]))
+    | "pl" => do let ps ← plist (pv dim); pure (.other (ps.flatMap fun p => [p.x, p.y, p.z]))
+    | _ => failure
+def pshape (dim : Nat) : P FShape := pshapeN dim 3
 def FShape.size : FShape → Rat
   | .ball r => q r
   | .cuboid he => normAbs (q3 he)
@@ -333,7 +368,7 @@ def lipschitzOk (L slack : Rat) (samples : List (Rat × Rat)) : Bool :=
     | _ => true
   go samples
 
-def e2eOracle (dim : Nat) (sizeScale vrel : Rat) (o : ROpts) (out : List String) : String :=
+def e2eCore (dim : Nat) (sizeScale vrel : Rat) (o : ROpts) (out : List String) : String :=
   let tl := tol5 * sizeScale
   let bad (x : Float) : Bool := !FloatIO.isFinite x
   match out with
@@ -382,11 +417,69 @@ def e2eOracle (dim : Nat) (sizeScale vrel : Rat) (o : ROpts) (out : List String)
         if T > 1 / 100000 then "fail penetrating-with-late-toi" else "pass"
       else
         if q dt > o.target + tlT then s!"fail still-apart-at-toi d={q dt}" else
+        -- without stop_at_penetration a start-up contact that is separating is discarded (per pair of parts for
+        -- composites) and a later impact may legitimately be reported while the discarded one is still within target
+        if !o.stop ∧ q d0 ≤ o.target + tl then "pass" else
         if q dt < o.target - tlT then s!"fail already-closer-than-target-at-toi d={q dt}" else
         match ds.filter (fun d => q d < o.target - tlT) with
         | d :: _ => s!"fail earlier-contact d={q d}"
         | [] => geoVerdict
   | _ => "fail unparsable-output"
+
+/-- Composite shapes and height fields: "first time of impact" also means *the minimum over the parts*.  The harness
+appended the brute-force reduction (`bf none | some t`): the same real cast, same options, pair of parts by pair of parts.
+A traversal (BVH best-first search, height-field cell walk) that skips a part shows up here even when the distance samples
+are too coarse to see it. -/
+def bfToken (tag : String) (out : List String) : Option (Option Rat) :=
+  match ((out.dropWhile (· ≠ tag)).drop 1) with
+  | "none" :: _ => some none
+  | "some" :: t :: _ => (FloatIO.ofHex? t).map fun x => some (q x)
+  | _ => none
+
+def bfVerdict (sizeScale vrel : Rat) (o : ROpts) (out : List String) : String :=
+  let tl := tol5 * sizeScale
+  let res : Option (Option Rat) := match out with
+    | "none" :: _ => some none
+    | "some" :: t :: _ => (FloatIO.ofHex? t).map fun x => some (q x)
+    | _ => none
+  let close (a b : Rat) : Bool := rabs (a - b) * vrel ≤ tl + tol5 * b * vrel
+  -- the parts' first impact is a genuine crossing (not a grazing tie): shortly after it the real distance is clearly
+  -- below the target (exactly 0 = intersecting, for target 0) at two of the three sample times at least
+  let realHit : Bool :=
+    let ds := (((out.dropWhile (· ≠ "bfd")).drop 1).take 3).filterMap FloatIO.ofHex?
+    (ds.filter fun d => q d < o.target - tl ∨ (o.target = 0 ∧ q d = 0)).length ≥ 2
+  let inMax (b : Rat) : Bool := b ≤ o.maxToi * (1 - 1 / 1000000) - 1 / 1000000000
+  -- `bfl`: the parts cast with the traversal's own frames (what it must reproduce); `bf`: the same casts in world frames
+  match bfToken "bfl" out, res with
+  | none, _ => "pass"                       -- not a composite run / unsupported
+  | _, none => "pass"
+  | some none, some none => "pass"
+  | some none, some (some T) => s!"fail hit-but-no-pair-of-parts-hits toi={T}"
+  | some (some B), some none =>
+    if inMax B ∧ realHit then s!"fail none-but-a-pair-of-parts-hits-within-max t={B} max={o.maxToi}" else "pass"
+  | some (some B), some (some T) =>
+    if (T - B) * vrel > tl + tol5 * B * vrel ∧ realHit then s!"fail later-than-the-first-impact-over-the-parts toi={T} parts={B}" else
+    if (B - T) * vrel > tl + tol5 * B * vrel then s!"fail earlier-than-every-pair-of-parts toi={T} parts={B}" else
+    -- the two brute-force reductions are the same casts in two frames: they must agree too
+    match bfToken "bf" out with
+    | some (some W) => if close W B then "pass" else s!"fail part-cast-depends-on-the-frame local={B} world={W}"
+    | some none => if inMax B then s!"fail part-cast-depends-on-the-frame local={B} world=none" else "pass"
+    | none => "pass"
+
+/-- frame dependence when the traversal agrees with its own parts but both say `None` -/
+def frameVerdict (o : ROpts) (out : List String) : String :=
+  match bfToken "bfl" out, bfToken "bf" out with
+  | some none, some (some W) =>
+    if W ≤ o.maxToi * (1 - 1 / 1000000) - 1 / 1000000000 then s!"fail part-cast-depends-on-the-frame local=none world={W}" else "pass"
+  | _, _ => "pass"
+
+def e2eOracle (dim : Nat) (sizeScale vrel : Rat) (o : ROpts) (out : List String) : String :=
+  let base := e2eCore dim sizeScale vrel o out
+  if base.startsWith "fail" then base else
+  let b := bfVerdict sizeScale vrel o out
+  if b.startsWith "fail" then b else
+  let f := frameVerdict o out
+  if f.startsWith "fail" then f else base
 
 /-- nonlinear(ω = 0) vs linear, from the same output line -/
 def nlOracle (sizeScale vrel : Rat) (o : ROpts) (out : List String) : String :=
@@ -395,7 +488,38 @@ def nlOracle (sizeScale vrel : Rat) (o : ROpts) (out : List String) : String :=
     | "none" :: _ => some none
     | "some" :: t :: _ => (FloatIO.ofHex? t).map fun x => some (q x)
     | _ => none
-  let nl := (out.dropWhile (· ≠ "nl")).drop 1
+  let nlAll := (out.dropWhile (· ≠ "nl")).drop 1
+  let nl := nlAll.takeWhile (· ≠ "bfnl")
+  let bfnl := ((nlAll.dropWhile (· ≠ "bfnl")).drop 1).takeWhile (· ≠ "cull")
+  let cull := (nlAll.dropWhile (· ≠ "cull")).drop 1
+  -- composites: the nonlinear cast must equal the minimum of the same nonlinear cast over the pairs of parts
+  let nlT : Option (Option Rat) := match nl with
+    | ["none"] => some none
+    | "some" :: t :: _ => (FloatIO.ofHex? t).map fun x => some (q x)
+    | _ => none
+  let compV : String := match bfnl, nlT with
+    | [], _ => "pass" | ["unsupported"], _ => "pass" | _, none => "pass"
+    | ["none"], some none => "pass"
+    | ["none"], some (some T) => s!"fail nonlinear-composite-hit-but-no-pair-of-parts-hits toi={T}"
+    | ["some", t], some r =>
+      match FloatIO.ofHex? t with
+      | none => "fail unparsable-output"
+      | some t =>
+        let B := q t
+        match r with
+        | none =>
+          -- the traversal prunes with the real nonlinear ball/ball cast of the bounding balls; when that very cast, with
+          -- the balls correctly placed, denies the impact of the first-hit pair, the miss is the known weakness of the
+          -- nonlinear support-map cast and not a traversal error
+          if cull = ["none"] then s!"fail nonlinear-none-but-linear-hit (culling ball/ball nonlinear cast of the first-hit pair returns None) t={B}"
+          else s!"fail nonlinear-composite-none-but-a-pair-of-parts-hits t={B}"
+        | some T =>
+          if rabs (T - B) * vrel ≤ tl + tol5 * B * vrel then "pass" else
+          if T > B ∧ cull = ["none"] then s!"fail nonlinear-none-but-linear-hit (culling ball/ball nonlinear cast of the first-hit pair returns None; a later pair is reported) toi={T} parts={B}"
+          else s!"fail nonlinear-composite-differs-from-the-minimum-over-parts toi={T} parts={B}"
+    | _, _ => "fail unparsable-output"
+  if compV.startsWith "fail" then compV else
+  let isComp := !bfnl.isEmpty
   match lin, nl with
   | _, ["unsupported"] => "skip nonlinear-unsupported"
   | _, ["hang"] => "fail nonlinear-hang (no result within the 2 s watchdog)"
@@ -421,7 +545,11 @@ def nlOracle (sizeScale vrel : Rat) (o : ROpts) (out : List String) : String :=
         if vrel = 0 ∧ q d ≤ 0 then "fail nonlinear-hit-but-linear-none[zero-relative-velocity]" else "pass"
       | some TL =>
         if !o.stop ∧ (TL < 1 / 100000 ∨ T < 1 / 100000) then "skip directional-mode-start-up-contact" else
-        if rabs (T - TL) * vrel ≤ tl + tol5 * TL * vrel then "pass" else s!"fail nonlinear-differs-from-linear nl={T} lin={TL}"
+        if rabs (T - TL) * vrel ≤ tl + tol5 * TL * vrel then "pass" else
+        -- composite whose nonlinear result equals the minimum over its parts but comes later than the linear impact:
+        -- the nonlinear cast of the pair of parts that the linear cast hits first returned None (or later)
+        if isComp ∧ T > TL then s!"fail nonlinear-none-but-linear-hit (for the first-hit pair of parts; composite = minimum over parts) nl={T} lin={TL}" else
+        s!"fail nonlinear-differs-from-linear nl={T} lin={TL}"
     | _, _ => "skip distance-unsupported"
   | _, _ => "fail unparsable-output"
 
